@@ -18,14 +18,13 @@ LOG = []
 LEAVES = [(r, ra) for r in (True, False) for ra in (None, True, False)]
 
 
-def make(desc, counter):
-    """desc -> (real algo object, reference node).  desc forms:
-    ["leaf", ret, run_always]  ["stack", [desc...]]  ["or", [desc...]]  ["not", desc]"""
-    bt = rt.bt()
-    k = desc[0]
-    if k == "leaf":
-        ident = counter[0]
-        counter[0] += 1
+_REC = {}
+
+
+def _rec_classes():
+    """one recording class (and one subclass marked run_always at class level) per process"""
+    if not _REC:
+        bt = rt.bt()
 
         class Rec(bt.core.Algo):
             def __init__(self, ident, ret):
@@ -37,9 +36,33 @@ def make(desc, counter):
                 LOG.append(self.ident)
                 return self.ret
 
-        a = Rec(ident, desc[1])
-        if desc[2] is not None:
-            a.run_always = desc[2]
+        @bt.algos.run_always
+        class RecAlways(Rec):
+            pass
+
+        _REC["c"] = (Rec, RecAlways)
+    return _REC["c"]
+
+
+def make(desc, counter):
+    """desc -> (real algo object, reference node).  desc forms:
+    ["leaf", ret, run_always]  ["stack", [desc...]]  ["or", [desc...]]  ["not", desc]"""
+    bt = rt.bt()
+    k = desc[0]
+    if k == "leaf":
+        ident = counter[0]
+        counter[0] += 1
+        Rec, RecAlways = _rec_classes()
+        # the three documented ways of marking: the decorator on a class, the decorator on one object,
+        # a plain attribute; unmarked objects of the very same classes stay unmarked
+        if desc[2] is True and ident % 3 == 0:
+            a = RecAlways(ident, desc[1])
+        elif desc[2] is True and ident % 3 == 1:
+            a = bt.algos.run_always(Rec(ident, desc[1]))
+        else:
+            a = Rec(ident, desc[1])
+            if desc[2] is not None:
+                a.run_always = desc[2]
         return a, ("leaf", ident, desc[1], desc[2])
     if k == "stack":
         subs = [make(d, counter) for d in desc[1]]
